@@ -13,11 +13,11 @@
 EXTENDS MultiTransportCore
 
 MonB(M, init) == [name |-> "mon", M |-> M, init |-> init, selIds |-> {}, maxSel |-> 0, maxW |-> 0, maxR |-> 0,
-                  maxP |-> 0, probes |-> {}, maxRac |-> 0]
+                  maxP |-> 0, probes |-> {}, maxRac |-> 0, hold |-> TRUE]
 
 MonInit == [S |-> {}, b |-> MonB({}, "none"), bad |-> {}, unk |-> FALSE,
             steps |-> 0, writes |-> 0, raced |-> 0, selects |-> 0, unknownSels |-> 0, seen |-> 0, reads |-> 0,
-            probes |-> 0, closes |-> 0, maxS |-> 0]
+            probes |-> 0, closes |-> 0, maxS |-> 0, held |-> 0, queuedSels |-> 0]
 MonReset(e) == IF "p" \in DOMAIN e     \* (a child process that died before printing anything has a synthesised Reset without p)
               THEN [MonInit EXCEPT !.b = MonB({ e.p.members[i] : i \in 1..Len(e.p.members) }, e.p.init)]
               ELSE MonInit
@@ -62,6 +62,27 @@ StepWrite(m, e) ==
                 ELSE IF e.ret = "ok" THEN {"WriteWrongMember"} ELSE {"WriteFailed"}
     IN [m EXCEPT !.S = Closure(IF ok # {} THEN ok ELSE forced), !.bad = @ \cup bad1, !.writes = @ + 1,
                  !.raced = @ + (IF Cardinality({ s.cur : s \in m.S }) > 1 THEN 1 ELSE 0)]
+
+\* ---- a write that stays in flight inside the member (writeBegin: the member was entered; writeEnd: it returned).
+\*      With `wait` the harness observes the current member after the return until it stops changing: every selection
+\*      emitted while the write was in flight must then have been applied, in order (the last member id wins).
+StepWriteBegin(m, e) ==
+    LET cand == { Apply(s, [a |-> "writeBegin", n |-> e.n]) : s \in m.S }
+        ok == { s \in cand : e.ret = "ok" /\ e.to = <<s.last.ret>> }
+        forced == { [s EXCEPT !.to[Len(s.to)] = Dest(e), !.wsel[Len(s.wsel)] = IF Dest(e) = None THEN @ ELSE Dest(e), !.hold = Dest(e)] : s \in cand }
+        bad1 == IF ok # {} \/ m.S = {} THEN {}
+                ELSE IF e.ret = "panic" THEN {CrashName(m)}
+                ELSE IF e.ret = "ok" THEN {"WriteWrongMember"} ELSE {"WriteFailed"}
+    IN [m EXCEPT !.S = Closure(IF ok # {} THEN ok ELSE forced), !.bad = @ \cup bad1, !.writes = @ + 1, !.held = @ + 1,
+                 !.raced = @ + (IF Cardinality({ s.cur : s \in m.S }) > 1 THEN 1 ELSE 0)]
+StepWriteEnd(m, e) ==
+    LET S1 == Closure({ Apply(s, [a |-> "writeEnd"]) : s \in m.S })
+        settled == { s \in S1 : s.pending = <<>> }
+        S2 == { s \in settled : s.cur = e.probe }
+        bad1 == (IF e.ret = "panic" THEN {CrashName(m)} ELSE IF e.ret # "ok" THEN {"WriteFailed"} ELSE {})
+                \cup (IF e.wait /\ S2 = {} /\ S1 # {} THEN {IF e.probe = "panic" THEN CrashName(m) ELSE "SelectionNotApplied"} ELSE {})
+    IN [m EXCEPT !.S = IF e.wait /\ S2 # {} THEN S2 ELSE IF e.wait THEN settled ELSE S1, !.bad = @ \cup bad1,
+                 !.queuedSels = @ + (IF \E s \in m.S : s.pending # <<>> THEN 1 ELSE 0)]
 
 \* ---- asUnreliable / negotiationParams: answered by the current member
 StepProbe(m, e) ==
@@ -128,6 +149,8 @@ MonStep(m, e) ==
     ELSE LET m1 == CASE e.a = "new" -> StepNew(m, e)
                      [] e.a = "select" -> StepSelect(m, e)
                      [] e.a = "write" -> StepWrite(m, e)
+                     [] e.a = "writeBegin" -> StepWriteBegin(m, e)
+                     [] e.a = "writeEnd" -> StepWriteEnd(m, e)
                      [] e.a \in {"asUnreliable", "negotiationParams"} -> StepProbe(m, e)
                      [] e.a = "counters" -> StepCounters(m, e)
                      [] e.a = "memberRead" -> StepMemberRead(m, e)
@@ -142,5 +165,5 @@ MonStep(m, e) ==
 MonVerdict(m) == m.bad \cup (IF m.bad # {} \/ \A s \in m.S : AllInvOf(s) THEN {} ELSE {"ModelInvariant"})
 MonStats(m) == [steps |-> m.steps, writes |-> m.writes, racedWrites |-> m.raced, selects |-> m.selects,
                 unknownSels |-> m.unknownSels, seen |-> m.seen, reads |-> m.reads, probes |-> m.probes,
-                closes |-> m.closes, maxS |-> m.maxS]
+                closes |-> m.closes, maxS |-> m.maxS, heldWrites |-> m.held, holdsWithQueuedSelections |-> m.queuedSels]
 =============================================================================
